@@ -63,6 +63,9 @@ class Store:
     def link_reset(self):
         self.up = False
         self.config = {}
+        # a manufacturing token burnt into user data becomes the node's address when the NCP boots the next time
+        if getattr(self, "mfg_pending", None) is not None:
+            self.mfg_custom = self.mfg_pending
 
     def emit(self, handler, name, **fields):
         rx = handler.COMMANDS[name][2]
@@ -164,11 +167,11 @@ class Store:
 
         tid = a["tokenId"]
         if tid == t.EzspMfgTokenId.MFG_CUSTOM_EUI_64:
-            return {"tokenData": t.LVBytes(self.mfg_custom or FF8)}
+            return {"tokenData": t.LVBytes(getattr(self, "mfg_pending", None) or self.mfg_custom or FF8)}
         return {"tokenData": t.LVBytes(b"\xff" * 16)}
 
     def cmd_setMfgToken(self, h, a):
-        self.mfg_custom = bytes(a["tokenData"])
+        self.mfg_pending = bytes(a["tokenData"])
 
     def cmd_getTokenData(self, h, a):
         import bellows.types as t
